@@ -1123,7 +1123,10 @@ fn infer_missing_enum_match_patterns(
                 variant_ids.contains(&source_tag) && arm_tags.is_subset(&variant_ids)
             })
             .collect();
-        if candidates.len() != 1 {
+        // Several enums may declare the very same variants (an atom value does not say which one it
+        // came from); they agree on what is missing, so any of them answers the question.
+        let first_ids: HashSet<u64> = candidates.first()?.variants.iter().map(|(id, _)| *id).collect();
+        if !candidates.iter().all(|enm| enm.variants.iter().map(|(id, _)| *id).collect::<HashSet<u64>>() == first_ids) {
             return None;
         }
         candidates[0]
